@@ -31,6 +31,8 @@ def observe(arg):
                     el = el.ion[el.ions[0]]
                 elif t.get("via") == "iso" and el.isotopes:
                     el = el[el.isotopes[0]]
+                elif isinstance(t.get("via"), list):         # [A, charge]: the ion of an isotope (D{+}, T{+}, Fe[56]{2+}, ...)
+                    el = el[t["via"][0]].ion[t["via"][1]]
                 Es = t["E"]
                 if t.get("wavelength"):
                     lam = [float(xsf.xray_wavelength(E)) for E in Es]
